@@ -1,0 +1,91 @@
+//go:build verif
+
+// Contracts for package scenario (registration of the scenario components), checked by /verif/govc. Comment-only: no code.
+package scenario
+
+//@ use postprocessor "github.com/yandex/pandora/components/providers/scenario/http/postprocessor"
+//@ use grpcpreprocessor "github.com/yandex/pandora/components/providers/scenario/grpc/preprocessor"
+//@ use gun "github.com/yandex/pandora/components/guns/http_scenario"
+//@ use grpcgun "github.com/yandex/pandora/components/guns/grpc/scenario"
+//@ use http "github.com/yandex/pandora/components/providers/scenario/http"
+//@ use grpc "github.com/yandex/pandora/components/providers/scenario/grpc"
+
+// The documented component names are bound to their own constructors (one registration run per process).
+//@ func Import#lit0
+//@ props C16 C15 C18
+//@ may_panic true
+//@ at call register.Provider#0 assert [http-scenario-provider] arg(name) == "http/scenario"
+//@ at call register.Provider#1 assert [grpc-scenario-provider] arg(name) == "grpc/scenario"
+//@ at call RegisterVariableSource#0 assert [csv-source] arg(name) == "file/csv"
+//@ at call RegisterVariableSource#1 assert [json-source] arg(name) == "file/json"
+//@ at call RegisterVariableSource#2 assert [variables-source] arg(name) == "variables"
+//@ at call RegisterPostprocessor#0 assert [jsonpath] arg(name) == "var/jsonpath" && arg(mwConstructor) == box(NewVarJsonpathPostprocessor)
+//@ at call RegisterPostprocessor#1 assert [xpath] arg(name) == "var/xpath" && arg(mwConstructor) == box(NewVarXpathPostprocessor)
+//@ at call RegisterPostprocessor#2 assert [header] arg(name) == "var/header" && arg(mwConstructor) == box(NewVarHeaderPostprocessor)
+//@ at call RegisterPostprocessor#3 assert [assert-response] arg(name) == "assert/response" && arg(mwConstructor) == box(NewAssertResponsePostprocessor)
+//@ at call RegisterTemplater#0 assert [text-templater] arg(name) == "text"
+//@ at call RegisterTemplater#1 assert [html-templater] arg(name) == "html"
+//@ at call RegisterGRPCPostprocessor assert [grpc-assert-response] arg(name) == "assert/response"
+//@ at call RegisterGRPCPreprocessor assert [grpc-prepare] arg(name) == "prepare"
+
+//@ func Import#lit0#lit0
+//@ props C16 C08
+//@ at call http.NewProvider assert [the-shared-file-system-and-the-given-options] arg(fs) == fs && arg(conf) == cfg
+//@ func Import#lit0#lit1
+//@ props C16 C08
+//@ at call grpc.NewProvider assert [the-shared-file-system-and-the-given-options] arg(fs) == fs && arg(conf) == cfg
+//@ func Import#lit0#lit2
+//@ props C16 C15
+//@ at call vs.NewVSCSV assert arg(cfg) == cfg && arg(fs) == fs
+//@ func Import#lit0#lit3
+//@ props C16 C15
+//@ at call vs.NewVSJson assert arg(cfg) == cfg && arg(fs) == fs
+
+// The gRPC preprocessor keeps the configured mapping.
+//@ func Import#lit0#lit8
+//@ props C16 C20
+//@ ensures [the-configured-mapping] typeis(result, *grpcpreprocessor.PreparePreprocessor) && result.(*grpcpreprocessor.PreparePreprocessor).Mapping == cfg.Mapping
+
+// A postprocessor built from a description keeps every configured field; an invalid size assertion is rejected.
+//@ func NewAssertResponsePostprocessor
+//@ props C16 C15 C13
+//@ ensures [invalid-assertion-is-rejected] imp(result_of(cfg.Validate, 0) != nil, result1 == result_of(cfg.Validate, 0) && result0 == nil)
+//@ ensures [all-fields-kept] imp(result1 == nil, typeis(result0, *postprocessor.AssertResponse) && result0.(*postprocessor.AssertResponse).StatusCode == cfg.StatusCode && result0.(*postprocessor.AssertResponse).Headers == cfg.Headers && result0.(*postprocessor.AssertResponse).Body == cfg.Body && result0.(*postprocessor.AssertResponse).Size == cfg.Size)
+
+//@ func NewVarHeaderPostprocessor
+//@ props C16 C15
+//@ ensures typeis(result, *postprocessor.VarHeaderPostprocessor) && result.(*postprocessor.VarHeaderPostprocessor).Mapping == cfg.Mapping
+
+//@ func NewVarJsonpathPostprocessor
+//@ props C16 C15
+//@ ensures typeis(result, *postprocessor.VarJsonpathPostprocessor) && result.(*postprocessor.VarJsonpathPostprocessor).Mapping == cfg.Mapping
+
+//@ func NewVarXpathPostprocessor
+//@ props C16 C15
+//@ ensures typeis(result, *postprocessor.VarXpathPostprocessor) && result.(*postprocessor.VarXpathPostprocessor).Mapping == cfg.Mapping
+
+// Each registration helper registers under its own interface type.
+//@ func RegisterPostprocessor
+//@ props C18 C16
+//@ may_panic true
+//@ at call register.RegisterPtr assert typeis(arg(ptr), *gun.Postprocessor) && arg(name) == name0 && arg(newPlugin) == mwConstructor0 && arg(defaultConfigOptional) == defaultConfigOptional0
+
+//@ func RegisterTemplater
+//@ props C18 C16
+//@ may_panic true
+//@ at call register.RegisterPtr assert typeis(arg(ptr), *gun.Templater) && arg(name) == name0 && arg(newPlugin) == mwConstructor0
+
+//@ func RegisterVariableSource
+//@ props C18 C16
+//@ may_panic true
+//@ at call register.RegisterPtr assert typeis(arg(ptr), *vs.VariableSource) && arg(name) == name0 && arg(newPlugin) == mwConstructor0
+
+//@ func RegisterGRPCPostprocessor
+//@ props C18 C16
+//@ may_panic true
+//@ at call register.RegisterPtr assert typeis(arg(ptr), *grpcgun.Postprocessor) && arg(name) == name0 && arg(newPlugin) == mwConstructor0
+
+//@ func RegisterGRPCPreprocessor
+//@ props C18 C16
+//@ may_panic true
+//@ at call register.RegisterPtr assert typeis(arg(ptr), *grpcgun.Preprocessor) && arg(name) == name0 && arg(newPlugin) == mwConstructor0
